@@ -61,6 +61,7 @@ fn main() {
                 "C09" => run::finish(ops::ep::cases("C09", seed, tier), &driver, &out, seed, tier, ops::ep::RULE_C09, serde_json::json!({})),
                 "C04" => run::finish(ops::c04::cases(seed, tier), &driver, &out, seed, tier, ops::c04::RULE, serde_json::json!({})),
                 "C20" => run::finish(ops::c20::cases(seed, tier), &driver, &out, seed, tier, ops::c20::RULE, serde_json::json!({})),
+                "C02" => run::finish(ops::c02::cases(seed, tier), &driver, &out, seed, tier, ops::c02::RULE, serde_json::json!({})),
                 "C03" => run::finish(ops::c03::cases(seed, tier), &driver, &out, seed, tier, ops::c03::RULE, serde_json::json!({})),
                 "C14" => run::finish(ops::c14::cases(seed, tier), &driver, &out, seed, tier, ops::c14::RULE, serde_json::json!({})),
                 "C07" => run::finish(ops::c07::cases(seed, tier), &driver, &out, seed, tier, ops::c07::RULE, serde_json::json!({})),
